@@ -41,6 +41,12 @@ fn check_encode(x: f64, ctx: &mut Ctx) -> Result<(), String> {
     if near_pow16 {
         ctx.label("encode: within 16 ulp of a power of sixteen");
     }
+    if x != 0.0 {
+        let e = ((x.abs().to_bits() >> 52) & 0x7ff) as i64 - 1023;
+        ctx.label(if e < -256 { "encode: lowest band [16^-65, 16^-64)" } else if e >= 248 { "encode: top exponent [16^62, 16^63)" } else if e < 0 { "encode: |x| < 1" } else { "encode: |x| >= 1" });
+        ctx.label(if x < 0.0 { "encode: negative" } else { "encode: positive" });
+        ctx.label(&format!("encode: binary exponent = {} mod 4", e.rem_euclid(4)));
+    }
     if got != want {
         return Err(format!(
             "encode({:e} = bits {:#018x}) = {:#018x}, the normalised exact encoding is {:#018x} (normalised: {}, same value: {})",
